@@ -49,6 +49,10 @@ type PrecedeSpec struct {
 	Stores []string `json:"stores"` // full names "pkgpath.Var" of variables that must be assigned before each call
 	Fresh  []string `json:"fresh"`  // subset that must be assigned inside the same loop iteration as the call (no stale value)
 	What   string   `json:"what"`
+	// AutoReads: additionally require a fresh assignment, inside the same iteration, of every mutable package-level variable
+	// that the callee can read before assigning it (computed from the callee's read-before-kill summary): the call is one unit
+	// of work per iteration and must not see what the previous iteration left behind.
+	AutoReads bool `json:"auto_reads"`
 }
 
 type TermSpec struct {
@@ -1011,6 +1015,34 @@ func runPrecede(p *Program, c *Collector, pr PrecedeSpec) {
 	fresh := map[string]bool{}
 	for _, f := range pr.Fresh {
 		fresh[f] = true
+	}
+	if pr.AutoReads {
+		cf := p.Func(pr.Callee)
+		if cf == nil {
+			c.Anchor(pr.Props, "E6: must-precede: callee %s does not resolve", pr.Callee)
+			return
+		}
+		a := getStateAn(p)
+		have := map[string]bool{}
+		for _, w := range pr.Stores {
+			have[w] = true
+		}
+		var auto []string
+		for g := range a.summary(cf).R {
+			if !a.mutable[g] {
+				continue
+			}
+			n := globalFullName(g)
+			fresh[n] = true
+			if !have[n] {
+				auto = append(auto, n)
+			}
+		}
+		sort.Strings(auto)
+		pr.Stores = append(append([]string{}, pr.Stores...), auto...)
+		if len(pr.Stores) == 0 {
+			c.Ob(pr.Props, "E6.must-precede", "precede:"+pr.Func+" "+shortFn(pr.Callee)+" reads-nothing", Discharged, pr.What+": the callee reads no mutable package-level variable before assigning it", p.FuncPos(fn), true)
+		}
 	}
 	n := 0
 	for _, b := range fn.Blocks {
